@@ -4,6 +4,7 @@ import (
 	"github.com/LemoFoundationLtd/lemochain-core/chain/deputynode"
 	"github.com/LemoFoundationLtd/lemochain-core/common"
 	"github.com/LemoFoundationLtd/lemochain-core/common/crypto"
+	"github.com/LemoFoundationLtd/lemochain-core/common/verifhook"
 )
 
 // cache confirm to save CPU. This confirm may not be used at last
@@ -26,6 +27,7 @@ func SignBlock(blockHash common.Hash) ([]byte, error) {
 
 	// save to cache
 	sigCache.Hash = blockHash
+	verifhook.Yield("consensus.SignBlock:between-cache-stores")
 	sigCache.Sig = sig
 
 	return sigCache.Sig, nil
